@@ -53,8 +53,14 @@ pub enum FnRes {
     Fail(String),
 }
 
+tokio::task_local! {
+    /// the id of the evaluation a user function is called from (set by the recorders with EV.scope)
+    pub static EV: usize;
+}
+
 #[derive(Clone, Debug)]
 pub struct Invocation {
+    pub ev: usize,
     pub seq: usize,
     pub func: String,
     pub arg: Value,
@@ -111,8 +117,13 @@ impl UserFunction for ModelFn {
     async fn call(&self, params: Value) -> FunctionResult {
         // the invocation is logged at entry: this is the linearisation point "Invoke"
         let ordinal = self.count.fetch_add(1, Ordering::SeqCst) + 1;
-        let seq = self.log.seq.fetch_add(1, Ordering::SeqCst);
-        self.log.entries.lock().unwrap().push(Invocation { seq, func: self.name.to_string(), arg: params.clone(), ordinal });
+        let ev = EV.try_with(|v| *v).unwrap_or(0);
+        // sequence number and entry are taken under one lock: the log order IS the order of the atomic counter
+        {
+            let mut entries = self.log.entries.lock().unwrap();
+            let seq = self.log.seq.fetch_add(1, Ordering::SeqCst);
+            entries.push(Invocation { ev, seq, func: self.name.to_string(), arg: params.clone(), ordinal });
+        }
         YieldN(self.suspend).await;
         let res = if self.script.is_empty() { &FnRes::Echo } else { &self.script[(ordinal - 1).min(self.script.len() - 1)] };
         match res {
